@@ -14,7 +14,8 @@
                     (pend r = None)
      mask_ok C      the event mask contains IN_CREATE, IN_MOVED_FROM, IN_MOVED_TO (WATCHDOG_ALL does) *)
 Require Import WD.Base.Prelude WD.Base.BStr WD.Model.SubEvents WD.Model.Emitter WD.Model.Fs WD.Model.Reader
-               WD.Model.Pipeline WD.Proofs.CoverProofs WD.Proofs.CoverOutProofs WD.Proofs.ReplayPipeProofs.
+               WD.Model.Pipeline WD.Proofs.CoverProofs WD.Proofs.CoverOutProofs WD.Proofs.ReplayPipeProofs
+               WD.Proofs.C11LagProofs WD.Proofs.TidyCoverProofs.
 
 (* ---- 1. well-formed file systems are closed under every applicable operation on normal paths *)
 Theorem C02_wf_preserved : forall w o w', wf_fs w -> op_np o -> apply_op w o = Some w' -> wf_fs w'.
@@ -289,6 +290,33 @@ Theorem C02_cover_from_start_partial : forall C, c_faults C = [] -> c_fix_moveou
 Proof. exact cover_from_start_x. Qed.
 Print Assumptions C02_cover_from_start_partial.
 
+(* ---- 2d. no stale descriptor in the reader's tables (what C11's tidy_from asks of the unfiltered run).
+   tables_live k r := every key of _path_for_wd (pfw r) and every value of _wd_for_path (wfp r) - every entry of the two
+   association lists - is the wd of a kernel watch of k.  It is part of the watch invariant WInv (clauses wi_pfw, wi_keys
+   and wi_tight), hence of RSync; it holds in JSync states (the junk IN_IGNORED records are about descriptors that are in
+   neither table) and, in the pending state right after a directory move-out, of the SETTLED state (the departed
+   sub-tree forgotten: what the next record's settle_pending produces; C11's normal form). *)
+Theorem C02_tables_live_synced : forall C w k r, RSync C w k r -> tables_live k r.
+Proof. exact RSync_tables_live. Qed.
+Print Assumptions C02_tables_live_synced.
+
+Theorem C02_tables_live_inv : forall C w k r hot, GS C w k r hot -> tables_live (snd (settled r k)) (fst (settled r k)).
+Proof. exact GS_tables_live. Qed.
+Print Assumptions C02_tables_live_inv.
+
+(* at every drained point (live_along) of the histories of C02_cover_from_start_partial, from construct() *)
+Theorem C02_tables_live : forall C, c_faults C = [] -> c_fix_moveout C = true -> forall ops w,
+  c_mask C = WATCHDOG_ALL -> wf_fs w -> fisdir (c_root C) (w_fs w) = true -> ops_x C w None ops ->
+  exists r0 k0, construct C kinit (w_fs w) = Some (r0, k0) /\ live_along C w k0 r0 ops.
+Proof. exact tables_live_from_start. Qed.
+Print Assumptions C02_tables_live.
+
+(* the same in C11's vocabulary: the hypothesis tidy_from of the C11 history theorems holds on these histories *)
+Theorem C02_tidy_from : forall C full, c_faults C = [] -> c_fix_moveout C = true -> c_mask C = WATCHDOG_ALL ->
+  forall ops w, wf_fs w -> fisdir (c_root C) (w_fs w) = true -> ops_x C w None ops -> tidy_from C full w ops.
+Proof. exact tidy_from_covered. Qed.
+Print Assumptions C02_tidy_from.
+
 (* on the Pipeline model: one block AOp o; ARead (whole queue); ATick delay; AEmit x nit per applicable operation *)
 Theorem C02_cover_sequential_pipeline_partial : forall P, let C := pc_reader P in
   c_faults C = [] -> c_fix_moveout C = true -> c_mask C = WATCHDOG_ALL -> pc_filter P = None ->
@@ -455,7 +483,7 @@ Example C02_f10b_repaired :
     Cover (cfgo true) (w_fs w') k' r' /\ k_queue k' = [] /\ pend r' = None.
 Proof. exact f10b_repaired. Qed.
 
-(* they satisfy the hypothesis of C02_cover_from_start_partial *)
+(* they satisfy the hypothesis of C02_cover_from_start_partial / C02_tables_live / C02_tidy_from *)
 Example C02_f10_ops_x_nonvacuous : ops_x (cfgo true) w0 None f10b_ops /\ ops_x (cfgo true) w0 None f10d_ops.
 Proof.
   assert (GR : gpath pR) by (split; [discriminate | reflexivity]).
@@ -501,4 +529,14 @@ Proof.
     eapply ops_x_cons; [vm_compute; reflexivity | |].
     { apply cx_op. apply co_quiet; [exact I | now apply Nb]. }
     exact I.
+Qed.
+
+(* hence the F10 histories are tidy in the sense of C11 (an instance of C02_tidy_from, not a computation) *)
+Example C02_tidy_from_f10 : forall full, tidy_from (cfgo true) full w0 f10b_ops /\ tidy_from (cfgo true) full w0 f10d_ops.
+Proof.
+  intros full. split.
+  - apply C02_tidy_from; [reflexivity | reflexivity | reflexivity | exact w0_wf | vm_compute; reflexivity
+                           | exact (proj1 C02_f10_ops_x_nonvacuous)].
+  - apply C02_tidy_from; [reflexivity | reflexivity | reflexivity | exact w0_wf | vm_compute; reflexivity
+                           | exact (proj2 C02_f10_ops_x_nonvacuous)].
 Qed.
